@@ -329,6 +329,14 @@ func (u *Unmarshaler) generateMap(keyType, elemType reflect.Type, mapValue any) 
 	for _, key := range refValue.MapKeys() {
 		keythValue := refValue.MapIndex(key)
 		keythData := keythValue.Interface()
+		if !key.Type().AssignableTo(keyType) {
+			// 文档对象的键是字符串：仅当目标键类型与之同类（如具名字符串类型）时才转换，否则类型不匹配。
+			if key.Kind() != keyType.Kind() {
+				return emptyValue, errTypeMismatch
+			}
+
+			key = key.Convert(keyType)
+		}
 
 		switch dereffedElemKind {
 		case reflect.Slice:
